@@ -51,7 +51,7 @@ fn oracle_exit(sc: &Scenario, inv: &Invocation, r: &RunResult, tag: &str, expect
             format!("[{}] zinoma returned while shells it spawned were still running or not reaped: {:?}", tag, left),
         );
     }
-    let failed = !super::oneshot::observed_failures(&c).is_empty();
+    let failed = !super::oneshot::observed_failures(&c).is_empty() || r.events.iter().any(|e| e.kind == "watch-error" && e.rest.contains("injected"));
     if expect_error && failed && r.code == 0 {
         let sig_first = r.seq_of("signal").map(|s| super::oneshot::observed_failures(&c).iter().all(|f| s < f.1)).unwrap_or(false);
         if !sig_first {
@@ -79,7 +79,7 @@ impl Property for C10 {
         }
     }
     fn rule(&self) -> &'static str {
-        "one case = generated project (builds, services, aggregates; 6% wide fan-in/fan-out beyond 2x the queue capacity) in one-shot or --watch mode + a seeded schedule. The run is first executed without interference (R0: N scheduling decisions), then ENUMERATED: the termination signal delivered at decision index k for every k in 1..N (quick tier: at most 96 evenly spaced k, 24 on graphs with more than 3000 decisions; thorough: up to 2000), and each build that ran made to fail; from the instant of the signal (or failure) every build/service script is frozen - it ends only if killed. Oracle: main returns (a stall = zinoma waiting for a script or a message that will never come), no build/service shell is left running or killed-but-unreaped, exit status 0 unless a target failed. distinct_nontrivial = distinct (order hash, k) among runs where the stop request arrived while at least one script was running"
+        "one case = generated project (builds, services, aggregates; 6% wide fan-in/fan-out beyond 2x the queue capacity) in one-shot or --watch mode + a seeded schedule. The run is first executed without interference (R0: N scheduling decisions), then ENUMERATED: the termination signal delivered at decision index k for every k in 1..N (quick tier: at most 96 evenly spaced k, 24 on graphs with more than 3000 decisions; thorough: up to 2000), each build that ran made to fail, and (watch mode) the kernel refusing the n-th file watch; a delivered signal is the only one of its run; from the instant of the signal (or failure) every build/service script is frozen - it ends only if killed. Oracle: main returns (a stall = zinoma waiting for a script or a message that will never come), no build/service shell is left running or killed-but-unreaped, exit status 0 unless a target failed. distinct_nontrivial = distinct (order hash, k) among runs where the stop request arrived while at least one script was running"
     }
     fn assumptions(&self) -> Vec<&'static str> {
         vec!["promptness is decided without a clock: frozen scripts turn any wait for a script into an exactly detectable stall", "kill() reaches the shell zinoma spawned, as in reality; grandchildren are outside the statement"]
@@ -181,6 +181,12 @@ impl Property for C10 {
         for t in &ran {
             items.push(format!("fail@{}", sc.sim_id(t.0, &t.1)));
         }
+        // watch mode: the kernel refusing the n-th watch (inotify limit) while shells may already
+        // be running is one more way out: error exit, nothing left behind
+        let watches = r0.events.iter().filter(|e| e.kind == "watch" || e.kind == "watch-error").count();
+        for n in 1..=watches.min(if thorough { 40 } else { 8 }) {
+            items.push(format!("watchfail@{}", n));
+        }
         if let Some(f) = &sc.focus {
             items.retain(|i| i == f);
         }
@@ -190,9 +196,16 @@ impl Property for C10 {
             inv.plan.choices = Some(choices.clone());
             inv.plan.pad_zero = false;
             let is_signal = tag.starts_with("signal@");
+            let is_watchfail = tag.starts_with("watchfail@");
             if is_signal {
                 let k: u64 = tag[7..].parse().unwrap_or(1);
+                // this signal is the only one: if it is not honoured nothing else ends the run
+                inv.plan.events.retain(|e| !matches!(e.kind, PlanEventKind::Signal));
                 inv.plan.events.insert(0, PlanEvent { id: "sigk".into(), kind: PlanEventKind::Signal, gate: Gate::Step(k) });
+                inv.plan.knobs.freeze_on_signal = true;
+            } else if is_watchfail {
+                let n: u32 = tag[10..].parse().unwrap_or(1);
+                inv.plan.faults.push(Fault { site: "notify.watch".into(), occurrence: n, kind: "enospc".into() });
                 inv.plan.knobs.freeze_on_signal = true;
             } else {
                 inv.plan.faults.push(Fault { site: format!("proc.exit:{}", &tag[5..]), occurrence: 1, kind: "exit=1".into() });
